@@ -1684,7 +1684,6 @@ func freshSliceIn(v ssa.Value, seen map[ssa.Value]bool) bool {
 	return false
 }
 
-
 func isSliceOrMap(t types.Type) bool {
 	switch t.Underlying().(type) {
 	case *types.Slice, *types.Map:
